@@ -16,4 +16,10 @@ theorem src :
     Gen.Merkle.src_merkle_largestPowerOfTwo = Expect.Merkle_src_merkle_largestPowerOfTwo :=
   ⟨rfl, rfl, rfl, rfl, rfl⟩
 
+/-- everything else the package declares (imports, constants, types, variables, build constraints and the functions not
+pinned one by one) is unchanged too: no declaration of the modelled packages can change without a tie theorem failing. -/
+theorem rest :
+    Gen.Merkle.rest_merkle = Expect.Merkle_rest_merkle :=
+  rfl
+
 end Iota.Tie.C15
